@@ -89,7 +89,12 @@ def check_arc(case, ctx):
         (lon, lat), region = vd.longitude_continuity([conv(float(lon_in)), conv(float(lat_in))], list(region_in))
     else:
         scalar = None
-        (lon, lat), region = vd.longitude_continuity([lon_in.copy(), lat_in.copy()], list(region_in))
+        stacked = case.get("stacked", lon_in.size > 1 and build.small_hash(case, 14) % 4 == 0)
+        # "coordinates : list or array": one stacked array is the form in which the function itself returns them (finding D20)
+        given = np.array([lon_in, lat_in]) if stacked else [lon_in.copy(), lat_in.copy()]
+        (lon, lat), region = vd.longitude_continuity(given, list(region_in))
+        if stacked:
+            ctx.label("coordinates_as_one_array")
     ctx.check(np.array_equal(np.asarray(region_only), np.asarray(region)),
               "region differs with and without coordinates: %r vs %r", region_only, region)
     ctx.check(len(region) == 4, "returned region must have 4 values")
